@@ -223,13 +223,26 @@ fn run<C: CI>(ctx: &mut Ctx) {
 
     // ------------------------------------------------------------ Seq receiver and static literals
     ctx.group(&format!("{name}/owned-receiver"), |ctx| {
-        let lens = if ctx.lite { vec![pw + 1] } else { boundary_lengths(a.bits, 2) };
+        let mut lens = if ctx.lite { vec![pw + 1] } else { boundary_lengths(a.bits, 2) };
+        lens.extend(huge_lengths(ctx, a.bits).into_iter().step_by(2)); // far-from-small lengths (none under reduced budgets)
         for len in lens {
             if ctx.over() {
                 break;
             }
-            let codes = cover_codes(&mut ctx.rng, a, len);
+            let codes = if len > 1100 { structured_codes(&mut ctx.rng, a, len, len) } else { cover_codes(&mut ctx.rng, a, len) };
             let seq = mk::<C>(&codes);
+            if len > 1100 {
+                // ranges that start / end at block seams of a long sequence, through the accessors that do not copy
+                for st in [0usize, 1023, 1024, 4095, 4096, 8191, 8192, 16383, 16384, 32767, 32768, len - 1] {
+                    if st >= len {
+                        continue;
+                    }
+                    ctx.eval();
+                    let e = (st + 70).min(len);
+                    let r = observe(|| (codes_of::<C>(&seq[st..e]), seq.nth(st).to_bits(), seq.get(st).map(|x| x.to_bits()), seq[st..].len(), seq[..=st].len(), codes_of::<C>(&seq[st..][..e - st]), u8::from(&seq[st])));
+                    check!(ctx, r == Ok((codes[st..e].to_vec(), codes[st], Some(codes[st]), len - st, st + 1, codes[st..e].to_vec(), codes[st])), format!("index|{name}|huge"), "{name} owned len {len}: position {st}: slices / nth / get disagree with the model");
+                }
+            }
             refusals::<C>(ctx, &seq, len, &format!("{name} owned len {len}"));
             for _ in 0..ctx.n(20, 200, 3) {
                 let s = ctx.rng.below(len + 1);
